@@ -72,12 +72,18 @@ def sort_functions_total_rule(ck, ix):
     CU = "pint.delegates.formatter._compound_unit_helpers"
     m = ix.module(CU)
     n = 0
+    SORTS = ("sort_by_unit_name", "sort_by_display_name", "sort_by_dimensionality")
     for f in m.all_functions:
-        if f.name in ("sort_by_unit_name", "sort_by_display_name", "sort_by_dimensionality", "sort_key"):
+        # the sort functions and the key functions defined inside them (found as "nested in a sort function and passed as
+        # key=": their names are local names; reported under the canonical label sort_key)
+        par = getattr(f, "parent", None)
+        is_key = par is not None and par.name in SORTS and isinstance(f.node, ast.FunctionDef) and any(isinstance(k.value, ast.Name) and k.value.id == f.name for c in walk_local(par.node) if isinstance(c, ast.Call) for k in c.keywords if k.arg == "key")
+        if f.name in SORTS or is_key:
             n += 1
             ck.analysed(f)
             raises = [r for r in walk_local(f.node) if isinstance(r, ast.Raise)]
-            ck.check(not raises, "G-EXH", f"{f.qualname.split('::')[1]}|total", f.loc(raises[0]) if raises else f.loc(), "the sort key is defined for every unit",
+            label = f"{par.name}.<locals>.sort_key" if is_key else f.qualname.split('::')[1]
+            ck.check(not raises, "G-EXH", f"{label}|total", f.loc(raises[0]) if raises else f.loc(), "the sort key is defined for every unit",
                      f"`{norm(raises[0]) if raises else ''}`: a sort key that raises makes formatting fail for valid units (e.g. units of a dimension the order table does not list)")
     ck.floor("G-EXH", n, 3, "sort functions")
     ff = ix.cls("pint.delegates.formatter.full", "FullFormatter")
